@@ -102,6 +102,9 @@ def handler_body(cx: Cxx, side: str, port: str, ev: M.Event, extra: str = '') ->
         '{ vmon::J j; j.s("side","%s").s("port","%s").s("event","%s").s("dir","%s")%s'
         '.a("args",{%s}).p("pump", vmon::current_pump); vmon::log("arrive", j); }'
         % (side, port, ev.name, ev.direction, extra, ', '.join(f'{n}.id' for n in ins))]
+    # a scripted action of the handler itself (a component raising an out-event while it handles
+    # an in-event): one-shot, armed by the `nest` operation of the harness
+    lines.append(f'vmon::run_nested("{key}");')
     for name in outs:
         lines.append(f'{name}.id = vmon::fresh_id();')
     if info['kind'] == 'void':
@@ -482,6 +485,9 @@ def harness(gen, info: Dict[str, Any], enc: Dict[str, Any], mapping: Dict[str, s
     o.append('  g_ops["compunbind"] = [](const Args& a) { g_compunbind.at(a[1])(""); };')
     o.append('  g_ops["call"] = [](const Args& a) { g_call.at(a[1])(a.size() > 2 ? a[2] : "-"); };')
     o.append('  g_ops["raise"] = [](const Args& a) { g_raise.at(a[1])(a.size() > 2 ? a[2] : "pump"); };')
+    o.append('  g_ops["nest"] = [](const Args& a) { const std::string in = a[1], out = a[2]; '
+             'vmon::set_nested(in, [in, out] { { vmon::J j; j.s("in", in).s("out", out); '
+             'vmon::log("nested", j); } g_raise.at(out)("direct"); }); };')
     o.append('  g_ops["reply"] = [](const Args& a) { vmon::push_reply(a[1], std::stoll(a[2])); };')
     o.append('  g_ops["quiesce"] = [](const Args&) { quiesce(); };')
     # the log record must bracket the closed period: logged after closing, before opening
@@ -515,7 +521,7 @@ def harness(gen, info: Dict[str, Any], enc: Dict[str, Any], mapping: Dict[str, s
     o.append('    if (a.empty() || a[0][0] == \'#\') continue;')
     o.append('    auto it = g_ops.find(a[0]);')
     o.append('    if (it == g_ops.end()) { vmon::J j; j.s("line", line); vmon::log("unknown_op", j); rc = 3; break; }')
-    o.append('    if (!g_shell && a[0] != "construct" && a[0] != "reply" && a[0] != "gate" && a[0] != "quiesce") '
+    o.append('    if (!g_shell && a[0] != "construct" && a[0] != "reply" && a[0] != "nest" && a[0] != "gate" && a[0] != "quiesce") '
              '{ vmon::J j; j.s("line", line); vmon::log("skipped_no_shell", j); continue; }')
     o.append('    try { it->second(a); }')
     o.append('    catch (const std::exception& e) { vmon::J j; j.s("line", line).s("what", e.what()); '
